@@ -1,5 +1,6 @@
 import Prom.Lemmas.RegistryInv
 import Prom.Lemmas.C06Conc
+import Prom.Lemmas.C06RealTime
 import Prom.Lemmas.C06Err
 
 namespace Prom.C06
@@ -435,9 +436,83 @@ theorem registry_linearizable {colls : List Coll} {prog : List (List String)} {s
     obtain ⟨hc, hl⟩ := ih
     cases rItem_trans hs with
     | frame hc' hr hl' => exact ⟨hc'.trans hc, by rw [hr, hl']; exact hl⟩
-    | eff t op hc' hr hl' =>
+    | eff t i op hc' hr hl' =>
       refine ⟨hc'.trans hc, ?_⟩
       rw [hr, hl']
       simp only [RM.rEff, specRunR_append, hl, Option.bind_some, specRunR, hc, if_true]
+
+
+/-! ### the commit order is consistent with real time -/
+
+/-- the states of accepted runs are the continuations (`RRun`) of the initial state -/
+theorem rReach_iff_rRun {colls : List Coll} {prog : List (List String)} {s : RM.St} :
+    RReach colls prog s ↔ RRun (RM.init colls prog) s := by
+  constructor
+  · intro h
+    induction h with
+    | init => exact .init
+    | step _ hs ih => exact .step ih hs
+  · intro h
+    induction h with
+    | init => exact .init
+    | step _ hs ih => exact .step ih hs
+
+/-- **registry_commits_within_call** — every entry of the commit log was appended by a step of its
+    own call, between that call's call mark and its return mark: an accepted item that changes the
+    log is an EVENT (the lock acquisition) of a thread whose call is open (`pc ≠ none`: the call mark
+    has been accepted, the return mark has not), it appends exactly one entry `x`, and `x` carries
+    this thread and the index of that open call (which the step does not close: `idx` unchanged).
+    Call marks, return marks and the unlock events leave the log as it is. -/
+theorem registry_commits_within_call {s s' : RM.St} {it : Conc.Item} (h : RM.item s it = .ok s') :
+    s'.lin = s.lin ∨
+    ∃ e th x, it = .ev e ∧ s.ths[e.tid]? = some th ∧ th.pc.isSome = true ∧
+      s'.lin = s.lin ++ [x] ∧ x.tid = e.tid ∧ x.idx = th.idx ∧
+      ∃ th', s'.ths[e.tid]? = some th' ∧ th'.idx = th.idx ∧ th'.ops = th.ops :=
+  rItem_commit_within_call h
+
+/-- **registry_log_invariant** (the invariant behind the real-time theorem) — in every state of an
+    accepted run every entry `e` of the commit log belongs to an existing thread, and either to a call
+    that has returned (`e.idx <` the thread's call index) or to the thread's current call, which is
+    then open or has just completed (`pc.isSome || retv.isSome`): nothing is ever logged for a call
+    that has not started -/
+theorem registry_log_invariant {colls : List Coll} {prog : List (List String)} {s : RM.St}
+    (h : RReach colls prog s) :
+    ∀ e ∈ s.lin, ∃ th, s.ths[e.tid]? = some th ∧
+      (e.idx < th.idx ∨ (e.idx = th.idx ∧ (th.pc.isSome || th.retv.isSome) = true)) :=
+  rRun_inv (rReach_iff_rRun.1 h)
+
+/-- **registry_returned_call_is_final** — once a call `(t, i)` has returned (state `s`), no later
+    step commits anything for it: in every continuation `s'`, all its log entries lie inside the log
+    of `s` (which is a prefix of the log of `s'`) -/
+theorem registry_returned_call_is_final {s s' : RM.St} (h' : RRun s s') {t i : Nat} {th : Conc.Th RM.RPc}
+    (hth : s.ths[t]? = some th) (hret : i < th.idx) {p : Nat} {x : RM.RLin}
+    (hx : s'.lin[p]? = some x) (hxt : x.tid = t ∧ x.idx = i) : p < s.lin.length ∧ s.lin <+: s'.lin :=
+  ⟨rRun_returned_pos h' hth hret hx hxt, rRun_lin_prefix h'⟩
+
+/-- **registry_real_time_order** — the commit order of the registry machine is consistent with real
+    time. Take any state `s` of an accepted run and any continuation to `s'`. A call (`t`, `i`)
+    (`register` / `unregister` / `gather`) that has RETURNED in `s` (`i <` the call index of thread
+    `t`) and a call (`t'`, `i'`) that in `s` has not STARTED - thread `t'` has not reached it yet
+    (`idx < i'`), or it is the next call of `t'` and `t'` is idle (no call open, none waiting for its
+    return mark): wherever the two appear in the later commit log, the first is before the second.
+    So a `gather` that begins after a `register` has returned sees it, and one that returned before
+    the `register` began does not. -/
+theorem registry_real_time_order {colls : List Coll} {prog : List (List String)} {s s' : RM.St}
+    (h : RReach colls prog s) (h' : RRun s s')
+    {t t' : Nat} {th th' : Conc.Th RM.RPc} (hth : s.ths[t]? = some th) (hth' : s.ths[t']? = some th')
+    {i i' : Nat} (hret : i < th.idx)
+    (hnot : th'.idx < i' ∨ (i' = th'.idx ∧ th'.pc = none ∧ th'.retv = none))
+    {p q : Nat} {x y : RM.RLin} (hx : s'.lin[p]? = some x) (hy : s'.lin[q]? = some y)
+    (hxt : x.tid = t ∧ x.idx = i) (hyt : y.tid = t' ∧ y.idx = i') : p < q :=
+  rRun_real_time h' hth hret (rRun_no_entry_not_started (rReach_iff_rRun.1 h) hth' hnot) hx hy hxt hyt
+
+/-- the same for a call (`t'`, `i'`) that may have started but for which nothing has been committed
+    yet in `s` (it has not acquired the lock) -/
+theorem registry_real_time_order_uncommitted {s s' : RM.St} (h' : RRun s s')
+    {t t' : Nat} {th : Conc.Th RM.RPc} (hth : s.ths[t]? = some th)
+    {i i' : Nat} (hret : i < th.idx) (hno : ∀ e ∈ s.lin, ¬ (e.tid = t' ∧ e.idx = i'))
+    {p q : Nat} {x y : RM.RLin} (hx : s'.lin[p]? = some x) (hy : s'.lin[q]? = some y)
+    (hxt : x.tid = t ∧ x.idx = i) (hyt : y.tid = t' ∧ y.idx = i') : p < q :=
+  rRun_real_time h' hth hret hno hx hy hxt hyt
 
 end Prom.C06
